@@ -38,11 +38,25 @@ QUICK = [
     ("sim", {"Fam": "<- FamSim", "LitPool": "<- LitsMix", "Names": "<- NamesTop", "BinOps": "<- OpsAll",
              "Prelude": "<- PreSim", "MaxN": "9", "MaxD": "5", "MaxStk": "4", "MaxCtx": "3", "MaxStmts": "4",
              "MaxModStmts": "2", "Ill0": "1"}, (1500, 70)),
+    # --no-strict: a missing field or index is NULL instead of a failure (machines and reference with Strict = FALSE)
+    ("data-ns", {"Fam": "<- FamData", "LitPool": "<- Lits2", "Names": "<- Names1", "BinOps": "<- Ops2",
+                 "TyNames": "<- TySome", "Prelude": "<- PreData", "MaxN": "3", "MaxStmts": "1", "Strict": "FALSE"}, None),
+    ("sim-ns", {"Fam": "<- FamSim", "LitPool": "<- LitsMix", "Names": "<- NamesTop", "BinOps": "<- OpsAll",
+                "Prelude": "<- PreSim", "MaxN": "9", "MaxD": "5", "MaxStk": "4", "MaxCtx": "3", "MaxStmts": "4",
+                "MaxModStmts": "2", "Ill0": "1", "Strict": "FALSE"}, (700, 70)),
 ]
+
 
 
 def work(h, cases):
     return [P.replay_case(h, c) for c in cases]
+
+
+def work_nostrict(h, cases):
+    return [P.replay_case(h, c, strict=False) for c in cases]
+
+
+NOSTRICT = {"data-ns": work_nostrict, "sim-ns": work_nostrict}
 
 
 def work_prefix(h, cases):
@@ -213,4 +227,7 @@ THOROUGH = [
 def main(tier, replay=None):
     t0 = time.time()
     fams = QUICK if tier == "quick" else THOROUGH
-    return run(PID, tier, fams, t0, after=lambda rep, stats, okprogs: trace_leg(tier, rep, stats, okprogs))
+    if tier != "quick":
+        fams = fams + [f for f in QUICK if f[0] in NOSTRICT]
+    return run(PID, tier, fams, t0, worker_for=NOSTRICT,
+               after=lambda rep, stats, okprogs: trace_leg(tier, rep, stats, okprogs))
